@@ -46,6 +46,8 @@ structure DState where
   opens : Nat := 0
   /-- a trigger of an open finding has fired in this program: the entry-level model stops at the next restart -/
   tainted : Bool := false
+  /-- `fault k n` arms an injected I/O fault for the operation that follows -/
+  pending : Option Eng.Fault := none
 
 def replyStr : Meta.Reply → String
   | .exists_ => "EXISTS" | .created => "CREATED" | .rolled => "ROLLED" | .node => "NODE"
@@ -211,16 +213,35 @@ def handleEng (st : DState) (toks : List String) : Option (DState × String) :=
       let cfg := if g = "small" then Eng.smallCfg else Eng.realCfg
       some ({ st with cfg := cfg, mode := mode, proc := {}, aeng := none, opens := 0, tainted := false }, "ok")
     | none => some (st, "bad-op")
+  | ["eng", "fault", k, n] =>
+    match k.toNat?, n.toNat? with
+    | some kk, some nn => some ({ st with pending := some ⟨kk, nn⟩ }, "ok")
+    | _, _ => some (st, "bad-op")
   | "eng" :: rest =>
     match parseEngOp st rest with
-    | some op =>
+    | some op0 =>
+      let op : Eng.Op := match st.pending, op0 with
+        | some f, .append t pay => .appendF t pay f
+        | some f, .batch t ps => .batchF t ps f
+        | _, o => o
+      let st := { st with pending := none }
       let (p, o) := Eng.step st.cfg st.proc op
       let q := Eng.fires st.cfg st.proc op
       let pre := if q.isEmpty then "" else "#quirk " ++ ",".intercalate q ++ "\n"
       -- the entry-level model runs alongside while it applies
+      -- a faulted operation that fails without having rotated a block is a no-op for the entry-level
+      -- model; one that rotated stops the entry-level model (see `faultStops`)
+      let faulted : Bool := match op with | .appendF .. => true | .batchF .. => true | _ => false
+      let rotated : Bool := match op, st.proc.inst, p.inst with
+        | .appendF t _ _, some i0, some i1 => decide ((i1.reader t).chain.length > (i0.reader t).chain.length) || (i0.writers.get? t).isNone
+        | .batchF t _ _, some i0, some i1 => decide ((i1.reader t).chain.length > (i0.reader t).chain.length) || (i0.writers.get? t).isNone
+        | _, _, _ => false
+      let faultFired : Bool := faulted && (match o with | .err .other => true | _ => false)
       let aop : Option AEng.AOp := match op with
         | .append t pay => some (.append t pay)
         | .batch t ps => some (.batch t ps)
+        | .appendF t pay _ => if faultFired then none else some (.append t pay)
+        | .batchF t ps _ => if faultFired then none else some (.batch t ps)
         | .next t cp => some (.next t cp)
         | .bread t m cp s => some (.bread t m cp s)
         | .count t => some (.count t)
@@ -247,6 +268,7 @@ def handleEng (st : DState) (toks : List String) : Option (DState × String) :=
         | .kill => (none, st.opens, "")
         | _ =>
           if q.contains "sealThenAllocFail" then (none, st.opens, "")
+          else if faultFired && rotated then (none, st.opens, "")
           else if !isOpen then (st.aeng, st.opens, "")
           else match st.aeng, aop with
             | some a, some ao =>
